@@ -82,6 +82,11 @@ def maps_at_cls(w, t, o) -> bool:
     if k == "tup":
         items = iter_items(o)
         return True if items is None else all(maps_at_cls(w, tt, x) for tt, x in zip(t[1], items))
+    if k == "nt":
+        # a NamedTuple position is a tuple position: the items are inspected like those of a heterogeneous tuple
+        items = iter_items(o)
+        return True if items is None else all(
+            maps_at_cls(w, f["ty"], x) for f, x in zip(w["classes"][t[1]]["fields"], items))
     if k in gen.MAP_KINDS:
         if o[0] != "d":
             return True
@@ -126,6 +131,10 @@ def inst_classes(o, acc=None):
     return acc
 
 
+def inst_type(w, ci):
+    return ("nt" if w["classes"][ci]["kind"] == "nt" else "cls", ci)
+
+
 def union_creatable(S, u) -> bool:
     """can a structure hook for the union be obtained at all (C12: "for which a structure hook can be obtained without
     custom configuration")?  Decided on the implementation, once per union and world."""
@@ -143,7 +152,7 @@ def union_creatable(S, u) -> bool:
 def common(w, ty, tup, x=None, S=None) -> bool:
     """is the type (and the class of every instance inside the value) supported by both converter classes?"""
     if S is not None:
-        roots = [ty] + ([("cls", ci) for ci in inst_classes(x)] if x is not None else [])
+        roots = [ty] + ([inst_type(w, ci) for ci in inst_classes(x)] if x is not None else [])
         for r in roots:
             for u in gen.reach_unions(w, r):
                 if not union_creatable(S, u):
@@ -152,7 +161,7 @@ def common(w, ty, tup, x=None, S=None) -> bool:
         cfg = {"gen": g, "tuple": tup, "detailed": True}
         if not gen.supported(cfg, w, ty):
             return False
-        if x is not None and not all(gen.supported(cfg, w, ("cls", ci)) for ci in inst_classes(x)):
+        if x is not None and not all(gen.supported(cfg, w, inst_type(w, ci)) for ci in inst_classes(x)):
             return False
     return True
 
@@ -163,7 +172,7 @@ def commonise_type(t):
     if t is None or isinstance(t, str):
         return t
     k = t[0]
-    if k in ("enum", "lit", "cls", "td", "union"):
+    if k in ("enum", "lit", "cls", "td", "union", "nt"):
         return t
     if k == "tup":
         return ("tup", [commonise_type(x) for x in t[1]])
@@ -183,12 +192,17 @@ def commonise_world(w):
             c["recursive"] = "name"
         for f in c["fields"]:
             f["ty"] = commonise_type(f["ty"])
+            if c["kind"] == "nt" and not (isinstance(f["ty"], str) and f["ty"] in gen.PRIMS):
+                # a BaseConverter supports NamedTuples of primitive fields only (it has no NamedTuple unstructure hook)
+                f["ty"] = "int"
+                if f["dflt"] is not None:
+                    f["dflt"] = ("c", ("i", 0))
     return w
 
 
 def my_worlds(chk, drv, n_worlds):
     """like streams.worlds; 3 worlds in 4 hold attrs classes / dataclasses only and are commonised"""
-    G = gen.Gen(chk.rng, unions=True)
+    G = gen.Gen(chk.rng, unions=True, nt=True)
     made = attempts = 0
     while made < n_worlds and attempts < n_worlds * 3:
         attempts += 1
@@ -224,6 +238,9 @@ def same_modulo_initfalse(w, x, b, g):
     BaseConverter's output has and Converter's lacks when that is the ONLY difference (after tuples/deques -> lists),
     None otherwise."""
     t = x[0]
+    if t == "I" and w["classes"][x[1]]["kind"] == "nt":
+        x = ("t", [v for _, v in x[2]])  # an instance of a NamedTuple class is unstructured to (or left as) a tuple
+        t = "t"
     if t == "I":
         if b[0] != "d" or g[0] != "d":
             return None
@@ -475,6 +492,9 @@ def run(chk: framework.Check):
                          "{detailed, fast} (x prefer_attrib_converters on worlds with field converters), each structured by a "
                          "Converter and a BaseConverter; plus unstructure of every value on both; non-trivial = non-leaf type "
                          "and (for structuring) the statement's hypothesis on the payload holds; distinct by canonical text")
+    # implementation-only extended stream (unions by tag / unique fields, NamedTuples, registry hooks)
+    from harness import ext
+    ext.run_c06(chk, 150 if chk.tier == "quick" else 1500)
     drv.close()
 
 
